@@ -22,7 +22,7 @@ def run(chk):
     chk.rule("T.nearest-crossing", "GetIntersection reports the side the segment meets first (the crossing closest to p) for p in every side region - above / level / "
              "below resp. left / level / right - and every possible (entry, exit) pair of sides; false and loc unchanged when nothing is crossed (76 cells)")
     chk.rule("T.touching", "GetSegmentIntersection with an end point W on the line of the other segment (a, b): true exactly when W lies strictly between a "
-             "and b - all orderings, W = p1..p4, horizontal and vertical other segment in both directions (48 cells)")
+             "and b - all orderings, W = p1..p4, horizontal and vertical other segment in both directions; also true with W on a or b itself, the shared end point (80 cells)")
     chk.rule("POLY.intersect", "GetSegmentIntersection: an end point stored as the intersection under `cross == 0` lies on both lines (identically, or by the "
              "guard's equation); the general case hands both segments to GetSegmentIntersectPt, whose result lies on both lines (polynomial normal forms)")
     chk.rule("T.rect", "Rect::Contains(Rect) == closed inclusion, Rect::Intersects == closed boxes meet, Rect::IsEmpty == zero or negative "
